@@ -54,6 +54,8 @@ type vc18Ledger struct {
 	aparams  map[ledgercore.AccountAsset]basics.AssetParams
 	totals   ledgercore.AccountTotals
 	txids    map[transactions.Txid]basics.Round // committed txid -> LastValid
+	panicTxid  *transactions.Txid // armed: CheckDup panics when asked about this transaction
+	panicFired bool
 	appPar   map[ledgercore.AccountApp]basics.AppParams
 	appLoc   map[ledgercore.AccountApp]basics.AppLocalState
 	kv       map[string][]byte
@@ -76,6 +78,10 @@ func (l *vc18Ledger) VotersForStateProof(basics.Round) (*ledgercore.VotersForRou
 }
 func (l *vc18Ledger) FlushCaches() {}
 func (l *vc18Ledger) CheckDup(_ config.ConsensusParams, _ basics.Round, _ basics.Round, _ basics.Round, txid transactions.Txid, _ ledgercore.Txlease) error {
+	if l.panicTxid != nil && *l.panicTxid == txid {
+		l.panicFired = true
+		panic("vc18: injected panic in the ledger lookup")
+	}
 	if _, ok := l.txids[txid]; ok {
 		return &ledgercore.TransactionInLedgerError{Txid: txid, InBlockEvaluator: false}
 	}
@@ -610,7 +616,8 @@ func (u *vc18U) snap(ev *BlockEvaluator) []interface{} {
 			}
 			return a, ok
 		})
-	return vL(table, mods, txids, leases, ev.state.txnCount, ev.state.feesCollected.Raw, len(ev.block.Payset), av, cr, ev.blockTxBytes, u.evalAppRows(ev))
+	return vL(table, mods, txids, leases, ev.state.txnCount, ev.state.feesCollected.Raw, len(ev.block.Payset), av, cr, ev.blockTxBytes, u.evalAppRows(ev),
+		ev.corruptedState)
 }
 
 // error classes: keep in sync with coq/model/EvalCow.v (E_*)
@@ -1948,6 +1955,7 @@ type vc18Opts struct {
 	faultPct                  int
 	assetWeight               int
 	appWeight                 int
+	panicPct                  int // share of groups with an injected panic (no tracer involved)
 	file                      string
 	salt                      uint64
 }
@@ -2009,12 +2017,42 @@ func (u *vc18U) block(t *testing.T, out *vOut, o vc18Opts, prevBlock [][]transac
 	startObs := u.snap(ev)
 	var groups []interface{}
 	var inBlock [][]transactions.SignedTxn
+	sab := 0
 	ng := 1 + r.Intn(o.groups)
 	for gi := 0; gi < ng; gi++ {
 		stxs, fault, pos := u.genGroup(ev, rnd, o.faultPct, inBlock, prevBlock)
 		desc := u.describe(ev, stxs)
+		// panic injection without a tracer: (a) the ledger's CheckDup panics while transaction i of
+		// the loop is evaluated; (b) the parent cow's Txids / sdeltas map is set to nil (only while
+		// it is still empty, so nothing observable changes), which makes commitToParent panic at its
+		// first write to it -- after the Payset append and the earlier merge steps
+		loopAt := -1
+		if !ev.corruptedState && sab == 0 && r.Intn(100) < o.panicPct {
+			switch k := r.Intn(3); {
+			case k == 1 && len(ev.state.mods.Txids) == 0:
+				ev.state.mods.Txids = nil
+				sab = 1
+			case k == 2 && len(ev.state.sdeltas) == 0:
+				ev.state.sdeltas = nil
+				sab = 2
+			default:
+				loopAt = r.Intn(len(stxs))
+				id := stxs[loopAt].ID()
+				l.panicTxid, l.panicFired = &id, false
+			}
+		}
 		before := len(ev.block.Payset)
 		err := ev.TransactionGroup(transactions.WrapSignedTxnsWithAD(stxs)...)
+		l.panicTxid = nil
+		var inj interface{} = 0
+		switch {
+		case loopAt >= 0 && l.panicFired:
+			inj = vL(vSym("loop"), loopAt)
+			st["inject_loop_fired"]++
+		case sab != 0:
+			inj = vL(vSym("sab"), sab)
+			st[fmt.Sprintf("inject_sab%d_group", sab)]++
+		}
 		if err == nil {
 			u.learnIDs(ev.block.Payset[before:])
 		}
@@ -2022,7 +2060,10 @@ func (u *vc18U) block(t *testing.T, out *vOut, o vc18Opts, prevBlock [][]transac
 		if code == 99 {
 			t.Fatalf("unclassified group error %v", err)
 		}
-		groups = append(groups, vL(desc, 0, code, u.snap(ev)))
+		if ev.corruptedState {
+			st["groups_on_corrupted"]++
+		}
+		groups = append(groups, vL(desc, 0, code, u.snap(ev), inj))
 		st["groups"]++
 		st[fmt.Sprintf("group_size_%02d", len(stxs))]++
 		if fault != "" {
@@ -2063,6 +2104,15 @@ func (u *vc18U) block(t *testing.T, out *vOut, o vc18Opts, prevBlock [][]transac
 		u.dead = true
 		t.Logf("block %d refused (%s): %v", rnd, why, err)
 		return nil
+	}
+	if ev.corruptedState {
+		// the evaluator must now refuse to produce a block; the round is started over
+		st["blocks_corrupted"]++
+		_, gerr := ev.GenerateBlock(nil)
+		fav, fcr := u.ledgerAview()
+		end := vL(vL(), vL(), 0, 0, vc18ErrClass(gerr), u.ledgerTable(), fav, fcr, u.ledgerAppRows(false))
+		out.Case(vSym("blk"), vc18Params(l.proto), hd, base, baseTx, baseAssets, u.aidList(), baseRows, u.appList(), startObs, groups, end)
+		return prevBlock
 	}
 	ub, err := ev.GenerateBlock(nil)
 	if err != nil {
@@ -2109,7 +2159,7 @@ func (u *vc18U) block(t *testing.T, out *vOut, o vc18Opts, prevBlock [][]transac
 
 func TestVerifC18(t *testing.T) {
 	vc18Run(t, vc18Opts{universes: vEnvInt("VERIF_C18_UNIVERSES", 12), blocks: vEnvInt("VERIF_C18_BLOCKS", 8),
-		groups: vEnvInt("VERIF_C18_GROUPS", 10), faultPct: vEnvInt("VERIF_C18_FAULTPCT", 25), assetWeight: vEnvInt("VERIF_C18_ASSETS", 8), appWeight: vEnvInt("VERIF_C18_APPS", 16),
+		groups: vEnvInt("VERIF_C18_GROUPS", 10), faultPct: vEnvInt("VERIF_C18_FAULTPCT", 25), assetWeight: vEnvInt("VERIF_C18_ASSETS", 8), appWeight: vEnvInt("VERIF_C18_APPS", 16), panicPct: vEnvInt("VERIF_C18_PANICS", 2),
 		file: "cases_c18.txt", salt: 0xC18})
 }
 
